@@ -542,6 +542,13 @@ pub fn roots_once(which: Which, tier: &str, seed: i64) -> (Acc, Vec<SpaceReport>
             let wj = J::Arr(vec![json::obj(vec![("op", json::s("search")), ("fen", json::s(b.spec.fen.clone())), ("history", json::s("")), ("depth", json::i(d))])]);
             judge(which, &b, d, &run, &w, &wj, acc);
             acc.transitions += 1;
+            // the same question again on the table the first search left: the answer now comes from the cached root
+            // entry (whatever form the table keeps a move in, it must come back as the move that was stored)
+            let run2 = run_search(&b.game, &mut t, &SearchCfg::depth(d));
+            let w2 = format!("{} ; {}", w, w);
+            let one = json::obj(vec![("op", json::s("search")), ("fen", json::s(b.spec.fen.clone())), ("history", json::s("")), ("depth", json::i(d))]);
+            judge(which, &b, d, &run2, &w2, &J::Arr(vec![one.clone(), one]), acc);
+            acc.transitions += 1;
         }
     })
 }
